@@ -52,6 +52,14 @@ func initRWMutex() {
 	)
 	Def(
 		c,
+		"to_read_only",
+		func(_ *Thread, args []value.Value) (value.Value, value.Value) {
+			self := (*value.RWMutex)(args[0].Pointer())
+			return value.Ref(value.NewROMutex(self)), value.Undefined
+		},
+	)
+	Def(
+		c,
 		"inspect",
 		func(_ *Thread, args []value.Value) (value.Value, value.Value) {
 			self := (*value.RWMutex)(args[0].Pointer())
